@@ -60,4 +60,17 @@ def partitions(tier, seed):
             stream = stream + stream
         for k in range(0, len(stream) + 1):
             parts.append(sp.M(PROP, "C05", sp.stream_key(), "%s-stream/cut%d" % (sp.cc_name(cc), k), stream[:k], [], budget=20))
+    # two pairs with DIFFERENT command codes (the error must carry the code of the command decoded last)
+    chosen = list(ccs)
+    pairs = list(zip(chosen, chosen[1:] + chosen[:1]))
+    if quick:
+        pairs = pairs[:6]
+    for c1, c2 in pairs:
+        if c1 == c2:
+            continue
+        s1 = G.commands(c1, minimal=True)[0][1] + G.responses(c1, minimal=True)[0][2]
+        s2 = G.commands(c2, minimal=True)[-1][1] + [r for r in G.responses(c2, minimal=True) if r[0] == "sess1"][0][2]
+        stream = s1 + s2
+        for k in range(len(s1), len(stream) + 1):
+            parts.append(sp.M(PROP, "C05", sp.stream_key(), "%s+%s-stream/cut%d" % (sp.cc_name(c1), sp.cc_name(c2), k), stream[:k], [], budget=20))
     return parts
